@@ -52,6 +52,7 @@ pub struct Party {
     e: Option<Vec<u8>>,
     prologue: Option<Vec<u8>>,
     psks: Vec<(u8, [u8; 32])>,
+    dup: String,
     st: St,
     ctl: Arc<Ctl>,
 }
@@ -159,11 +160,20 @@ fn eval_base(base: &str, regs: &Regs) -> Result<Vec<u8>, String> {
     }
 }
 
-fn errs<E: core::fmt::Debug>(e: E) -> String {
+fn errs<E: core::fmt::Debug + core::fmt::Display>(e: E) -> String {
+    // Display is part of the public surface too (must not panic); its text is not used
+    let _ = format!("{e}");
     format!("err:{}", sanitize(&format!("{e:?}")))
 }
 
 fn obs(st: &St) -> String {
+    // the Debug impls of the state types are public operations as well
+    match st {
+        St::Hs(h) => drop(format!("{h:?}")),
+        St::Tr(t) => drop(format!("{t:?}")),
+        St::Sl(t) => drop(format!("{t:?}")),
+        _ => {},
+    }
     match st {
         St::None => "o.st=none".into(),
         St::Gone => "o.st=gone".into(),
@@ -238,20 +248,33 @@ fn do_build(p: &mut Party) -> OpOut {
             }
         };
     }
+    let _ = format!("{b:?}");
     if let Some(s) = &p.s {
         b = step!(b.local_private_key(s));
+        if p.dup.contains('s') {
+            b = step!(b.local_private_key(s));
+        }
     }
     if let Some(rs) = &p.rs {
         b = step!(b.remote_public_key(rs));
+        if p.dup.contains('r') {
+            b = step!(b.remote_public_key(rs));
+        }
     }
     if let Some(pl) = &p.prologue {
         b = step!(b.prologue(pl));
+        if p.dup.contains('p') {
+            b = step!(b.prologue(pl));
+        }
     }
     if let Some(e) = &p.e {
         b = b.fixed_ephemeral_key_for_testing_only(e);
     }
     for (loc, key) in &p.psks {
         b = step!(b.psk(*loc, key));
+        if p.dup.contains('k') {
+            b = step!(b.psk(*loc, key));
+        }
     }
     let r = if p.role_i { b.build_initiator() } else { b.build_responder() };
     match r {
@@ -523,6 +546,7 @@ fn parse_party(toks: &[&str]) -> Result<(String, Party), String> {
         e: opt("e")?,
         prologue: opt("prologue")?,
         psks,
+        dup: m.get("dup").unwrap_or(&"").to_string(),
         st: St::None,
         ctl: Arc::new(Ctl::new(m.get("rec").unwrap_or(&"r"))),
     };
